@@ -169,7 +169,12 @@ def build_invariants(results, old, targets):
         if any(len(d) == 0 for d in m):
             inv[sp] = {"disjuncts": [], "top": True}
         else:
-            inv[sp] = {"disjuncts": m}
+            info = {}
+            for d in m:
+                for l in d:
+                    for a in l.atoms():
+                        info[a] = (ATOM_LO.get(a), ATOM_HI.get(a), ATOM_MASK.get(a))
+            inv[sp] = {"disjuncts": m, "atoms": info}
     return inv
 
 
